@@ -309,8 +309,11 @@ impl PathSliceList {
                         )?;
                         if let Some(_) = sub_pas_str {
                             write!(ret, "{}", s)?;
-                            next_need_comma_sep = true;
+                        } else {
+                            // keep the position of items without paths, so that indices still match
+                            write!(ret, "undefined")?;
                         }
+                        next_need_comma_sep = true;
                     }
                     write!(ret, "])")?;
                 }
